@@ -169,6 +169,8 @@ func generate(n int, seed uint64) []*Case {
 				add("synth/edge", s)
 			case 1, 2:
 				add("longonly", synthLongOnly(r))
+			case 6, 7, 8:
+				add("manylong", synthManyLong(r))
 			case 3, 4, 5:
 				st, off := synthOvfRoll(r)
 				add("ovfroll", st)
